@@ -138,6 +138,7 @@ def batch(
     states: set = set()
     digests_nontrivial: set = set()
     digests_all: Dict[int, str] = {}
+    digest_set: set = set()
     sim_seconds = 0.0
     n_done = 0
     n_ops = 0
@@ -179,14 +180,16 @@ def batch(
                 for r in results:
                     n_done += 1
                     n_ops += r["n_ops"]
-                    digests_all[r["seed"]] = r["digest"]
+                    if digests_out:
+                        digests_all[r["seed"]] = r["digest"]
+                    digest_set.add(int(r["digest"][:16], 16))
                     merge_counts(agg_faults, r["faults"])
                     merge_counts(agg_probes, r["probes"])
                     if len(states) < 2_000_000:
                         states.update(r["states"])
                     sim_seconds += r["sim_seconds"]
                     if r["faults"] and r["probes"]:
-                        digests_nontrivial.add(r["digest"])
+                        digests_nontrivial.add(int(r["digest"][:16], 16))
                     for s, d in r["known"]:
                         key = tuple(s)
                         known_seen[key] = known_seen.get(key, 0) + 1
@@ -259,7 +262,7 @@ def batch(
                 "probes_expected": list(getattr(prop, "PROBES", [])),
                 "probes_stuck_at_zero": [p for p in getattr(prop, "PROBES", []) if not agg_probes.get(p)],
                 "distinct_abstract_states": len(states),
-                "distinct_event_digests": len(set(digests_all.values())),
+                "distinct_event_digests": len(digest_set),
                 "runs_per_hour": int(n_done / max(wall, 1e-9) * 3600),
                 "seeds_per_hour": int(n_done / max(wall, 1e-9) * 3600),
                 "simulated_seconds": round(sim_seconds, 3),
